@@ -158,6 +158,7 @@ func vfMkTree(root string) {
 	}
 	must(os.MkdirAll(root+"/dir/sub", 0o755))
 	must(os.WriteFile(root+"/file", vfPRFBytes(1, 0, 300), 0o644))
+	must(os.WriteFile(root+"/big", vfBigFile, 0o644))
 	must(os.WriteFile(root+"/dir/a", []byte("a"), 0o644))
 	must(os.WriteFile(root+"/dir/b", []byte("bb"), 0o600))
 	must(os.WriteFile(root+"/dir/sub/x", []byte("xxxx"), 0o644))
